@@ -285,7 +285,7 @@ _STRATA = {
     "angle": [Fraction(9, 10), Fraction(-21, 10), Fraction(4), Fraction(-5), Fraction(0), Fraction(29, 10), Fraction(-1, 3), Fraction(17, 10)],
     "pos": [Fraction(13, 10), Fraction(1, 4), Fraction(3), Fraction(1, 50), Fraction(9, 5), Fraction(7, 2)],
     "nonneg": [Fraction(6, 10), Fraction(0), Fraction(5, 2), Fraction(1, 20), Fraction(3, 2)],
-    "tol": [Fraction(1, 1000), Fraction(0), Fraction(1, 10), Fraction(1, 2), Fraction(1, 100000)],
+    "tol": [Fraction(1, 1000), Fraction(0), Fraction(1, 10), Fraction(1, 2), Fraction(1, 100000), Fraction(3, 2), Fraction(5, 2)],
     "phi": [Fraction(-11, 10), Fraction(2), Fraction(3), Fraction(-29, 10), Fraction(1, 3), Fraction(-2), Fraction(0), Fraction(31, 10)],
     "theta": [Fraction(8, 10), Fraction(2), Fraction(1, 10), Fraction(3), Fraction(3, 2), Fraction(27, 10)],
     "beta": [Fraction(3, 10), Fraction(-7, 10), Fraction(99, 100), Fraction(0), Fraction(-1, 5), Fraction(1, 2)],
@@ -305,6 +305,30 @@ def stratified_assignments(inputs, n, seed=0):
         for nm in names:
             vals = _STRATA[inputs[nm]]
             a[nm] = vals[(k + rnd.randrange(len(vals))) % len(vals)] if k else vals[0]
+        out.append(a)
+    return out + zero_operand_assignments(inputs)
+
+
+_COORD_PREFIXES = ("theta", "tau", "rho", "phi", "eta", "x", "y", "z", "t")
+
+
+def zero_operand_assignments(inputs):
+    """one candidate per operand (inputs sharing a tag) in which that operand is the zero vector and every
+    other input has its default value: the zero boost, the zero addend, the vector at rest"""
+    groups = {}
+    for nm, kind in inputs.items():
+        for pre in _COORD_PREFIXES:
+            if nm.startswith(pre) and len(nm) > len(pre):
+                groups.setdefault(nm[len(pre):], []).append(nm)
+                break
+    out = []
+    for tag in sorted(groups):
+        members = [nm for nm in groups[tag] if inputs[nm] in ("real", "nonneg", "small", "beta")]
+        if len(members) < 2:
+            continue
+        a = {nm: default_value(nm, kind) for nm, kind in inputs.items()}
+        for nm in members:
+            a[nm] = Fraction(0)
         out.append(a)
     return out
 
